@@ -191,6 +191,9 @@ func (s *System) Dump(st *State) string {
 		if p.HasStack {
 			add("stack", p.Self.String(), StackTLA(st.P[i].Locals[".stack"], p))
 		}
+		for n, v := range p.ConstLocals {
+			add(n, p.Self.String(), v)
+		}
 	}
 	sort.Strings(names)
 	for _, n := range names {
